@@ -1,4 +1,5 @@
 //@@ include contracts/inc_cmd_header.rs
+//@@ include prelude/str_eq.rs
 verus! {
 /// STUB of the monitoring facade (counters only)
 pub struct MonStub { pub g: Ghost<int> }
@@ -109,8 +110,9 @@ impl Server {
 //@@   rewrite RCALL parse "String::from_utf8_lossy(bytes)" verif_cow_parse
     fn handle_setex(&mut self, parts: &[RespFrame], db: usize) -> (r: Result<RespFrame>)
         ensures
-            (parts@.len() != 4 || arg(parts@, 1) is None || num_arg::<u64>(parts@, 2) is None || arg(parts@, 3) is None) ==> refused(r, *old(self), *final(self)),
-            parts@.len() == 4 && arg(parts@, 1) is Some && num_arg::<u64>(parts@, 2) is Some && arg(parts@, 3) is Some && r is Ok ==> ({
+            // malformed, or an expire time that is not a positive integer: refused
+            (parts@.len() != 4 || arg(parts@, 1) is None || num_arg::<u64>(parts@, 2) is None || num_arg::<u64>(parts@, 2) == Some(0u64) || arg(parts@, 3) is None) ==> refused(r, *old(self), *final(self)),
+            parts@.len() == 4 && arg(parts@, 1) is Some && num_arg::<u64>(parts@, 2) is Some && num_arg::<u64>(parts@, 2) != Some(0u64) && arg(parts@, 3) is Some && r is Ok ==> ({
                 let k = arg(parts@, 1)->Some_0; let v = arg(parts@, 3)->Some_0;
                 done(r, *final(self), (RV::Okay, old(self).storage.ds@.insert((db as int, k), DV::Str(v))), old(self).storage.ttl@.insert((db as int, k), num_arg::<u64>(parts@, 2)->Some_0 as int * 1_000_000_000))
             }),
@@ -123,8 +125,9 @@ impl Server {
 //@@   rewrite RCALL parse "String::from_utf8_lossy(bytes)" verif_cow_parse
     fn handle_psetex(&mut self, parts: &[RespFrame], db: usize) -> (r: Result<RespFrame>)
         ensures
-            (parts@.len() != 4 || arg(parts@, 1) is None || num_arg::<u64>(parts@, 2) is None || arg(parts@, 3) is None) ==> refused(r, *old(self), *final(self)),
-            parts@.len() == 4 && arg(parts@, 1) is Some && num_arg::<u64>(parts@, 2) is Some && arg(parts@, 3) is Some && r is Ok ==> ({
+            // malformed, or an expire time that is not a positive integer: refused
+            (parts@.len() != 4 || arg(parts@, 1) is None || num_arg::<u64>(parts@, 2) is None || num_arg::<u64>(parts@, 2) == Some(0u64) || arg(parts@, 3) is None) ==> refused(r, *old(self), *final(self)),
+            parts@.len() == 4 && arg(parts@, 1) is Some && num_arg::<u64>(parts@, 2) is Some && num_arg::<u64>(parts@, 2) != Some(0u64) && arg(parts@, 3) is Some && r is Ok ==> ({
                 let k = arg(parts@, 1)->Some_0; let v = arg(parts@, 3)->Some_0;
                 done(r, *final(self), (RV::Okay, old(self).storage.ds@.insert((db as int, k), DV::Str(v))), old(self).storage.ttl@.insert((db as int, k), num_arg::<u64>(parts@, 2)->Some_0 as int * 1_000_000))
             }),
@@ -148,6 +151,38 @@ impl Server {
                     done(r, *final(self), (RV::Int(if present { 1int } else { 0int }), old(self).storage.ds@),
                         if present { old(self).storage.ttl@.insert((db as int, k), s as int * 1_000_000_000) } else { old(self).storage.ttl@ })
                 }
+            }),
+//@@ body
+//@@ end
+
+//@@ unit handle_set fn src/network/server.rs Server::handle_set
+//@@   rewrite R3
+//@@   params drop "&self" add "&mut self"
+//@@   rewrite RT "self.storage.set_string(" "self.storage.set_string_t("
+//@@   rewrite RXPR "String::from_utf8_lossy(option).to_uppercase()" "verif_upper(option)"
+//@@   rewrite RPCALL "String::from_utf8" verif_from_utf8
+//@@   rewrite RCALL parse "seconds_str" verif_parse_u64
+//@@   rewrite RCALL parse "millis_str" verif_parse_u64
+//@@   loop 0
+//@@|     invariant
+//@@|         3 <= i <= parts@.len() + 1, parts@.len() >= 3,
+//@@|         self.storage == old(self).storage,
+//@@|         set_opts(parts@, 3, SetOpts { exp: None, nx: false, xx: false }) == set_opts(parts@, i as int, SetOpts { exp: (match expiration { Some(d) => Some(dur_nanos(d)), None => None }), nx: nx, xx: xx }),
+//@@|     decreases parts@.len() + 1 - i,
+//@@   loopstart 0
+//@@|     proof { broadcast use group_str_eq; reveal_with_fuel(set_opts, 2); }
+    fn handle_set(&mut self, parts: &[RespFrame], db: usize) -> (r: Result<RespFrame>)
+        ensures
+            (parts@.len() < 3 || arg(parts@, 1) is None || arg(parts@, 2) is None) ==> refused(r, *old(self), *final(self)),
+            parts@.len() >= 3 && arg(parts@, 1) is Some && arg(parts@, 2) is Some ==> (match set_opts(parts@, 3, SetOpts { exp: None, nx: false, xx: false }) {
+                // bad option syntax, an expire time that is not a positive integer, or NX together with XX: refused
+                None => refused(r, *old(self), *final(self)),
+                Some(o) => if o.nx && o.xx { refused(r, *old(self), *final(self)) } else {
+                    r is Ok ==> ({
+                        let s = spec_set(old(self).storage.ds@, old(self).storage.ttl@, db as int, arg(parts@, 1)->Some_0, arg(parts@, 2)->Some_0, o);
+                        (r matches Ok(fr) && reply_matches(fr, s.0)) && final(self).storage.ds@ == s.1 && final(self).storage.ttl@ == s.2
+                    })
+                },
             }),
 //@@ body
 //@@ end
@@ -227,6 +262,55 @@ impl Server {
 //@@ body
 //@@ end
 }
+// ---- SET key value [EX s | PX ms] [NX | XX]
+/// upper-cased lossy decoding of an option word (uninterpreted; `String::from_utf8_lossy(option).to_uppercase()`, RXPR site)
+pub uninterp spec fn spec_upper(b: Seq<u8>) -> Seq<char>;
+#[verifier::external_body]
+pub fn verif_upper(b: &Arc<Vec<u8>>) -> (r: String) ensures r@ == spec_upper(b@), { unimplemented!() }
+/// strict UTF-8 decoding followed by decimal u64 parsing (`String::from_utf8(..)` then `.parse::<u64>()`)
+pub uninterp spec fn spec_utf8(b: Seq<u8>) -> Option<Seq<char>>;
+pub uninterp spec fn spec_str_u64(s: Seq<char>) -> Option<u64>;
+pub struct Utf8Err { pub g: Ghost<int> }
+pub struct IntErr { pub g: Ghost<int> }
+#[verifier::external_body]
+pub fn verif_from_utf8(v: Vec<u8>) -> (r: std::result::Result<String, Utf8Err>)
+    ensures match spec_utf8(v@) { Some(s) => r matches Ok(st) && st@ == s, None => r is Err },
+{ unimplemented!() }
+#[verifier::external_body]
+pub fn verif_parse_u64<F>(s: String) -> (r: std::result::Result<u64, IntErr>)
+    ensures match spec_str_u64(s@) { Some(n) => r == Ok::<u64, IntErr>(n), None => r is Err },
+{ unimplemented!() }
+pub open spec fn time_arg(parts: Seq<RespFrame>, i: int) -> Option<u64> {
+    match arg(parts, i) { Some(b) => match spec_utf8(b) { Some(s) => spec_str_u64(s), None => None }, None => None }
+}
+/// options accumulated so far: requested TTL in ns, NX, XX
+pub struct SetOpts { pub exp: Option<int>, pub nx: bool, pub xx: bool }
+/// the options of SET read left to right from position i; None = syntax error / invalid expire time
+pub open spec fn set_opts(parts: Seq<RespFrame>, i: int, o: SetOpts) -> Option<SetOpts>
+    decreases parts.len() - i
+{
+    if i >= parts.len() { Some(o) } else {
+        match arg(parts, i) {
+            None => None,
+            Some(w) => {
+                let u = spec_upper(w);
+                if u == "EX"@ { if i + 1 >= parts.len() { None } else { match time_arg(parts, i + 1) { Some(s) => if s == 0 { None } else { set_opts(parts, i + 2, SetOpts { exp: Some(s as int * 1_000_000_000), nx: o.nx, xx: o.xx }) }, None => None } } }
+                else if u == "PX"@ { if i + 1 >= parts.len() { None } else { match time_arg(parts, i + 1) { Some(s) => if s == 0 { None } else { set_opts(parts, i + 2, SetOpts { exp: Some(s as int * 1_000_000), nx: o.nx, xx: o.xx }) }, None => None } } }
+                else if u == "NX"@ { set_opts(parts, i + 1, SetOpts { exp: o.exp, nx: true, xx: o.xx }) }
+                else if u == "XX"@ { set_opts(parts, i + 1, SetOpts { exp: o.exp, nx: o.nx, xx: true }) }
+                else { None }
+            },
+        }
+    }
+}
+/// what SET does once its options are known
+pub open spec fn spec_set(ds: DS, ttl: TTL, db: int, k: Seq<u8>, v: Seq<u8>, o: SetOpts) -> (RV, DS, TTL) {
+    let stored = (RV::Okay, ds.insert((db, k), DV::Str(v)), match o.exp { Some(n) => ttl.insert((db, k), n), None => ttl.remove((db, k)) });
+    if o.nx { if ds.contains_key((db, k)) { (RV::Bulk(None), ds, ttl) } else { stored } }
+    else if o.xx { if ds.contains_key((db, k)) { stored } else { (RV::Bulk(None), ds, ttl) } }
+    else { stored }
+}
+
 /// DEL k1 .. : keys are removed left to right; a key named twice counts once (it is gone the second time); arguments that are
 /// not bulk strings are skipped
 pub open spec fn del_upto(ds: DS, ttl: TTL, db: int, parts: Seq<RespFrame>, n: int) -> (int, DS, TTL)
